@@ -132,6 +132,7 @@ State0(files, lf) ==
       rt |-> "none", rtFlag |-> FALSE, \* runtime automaton, ManagedThread flag
       ag |-> <<>>,                     \* agent name -> [kind, st, subs, flag, err]
       regOpen |-> TRUE, cancelOnce |-> FALSE, initDone |-> FALSE,
+      lateEv |-> FALSE,                \* an exit notification was handled after the reset that had given up waiting for it
       renderer |-> "none", rendInv |-> 0, rendSrc |-> 0, rendReason |-> "", firstFatal |-> "none",
       ig |-> InitGates, vg |-> InvGates,
       shutOn |-> FALSE, shutAwait |-> {},
@@ -170,7 +171,7 @@ InitFail(s, e) == [s EXCEPT !.pcI.pc = "end", !.pcI.err = e]
 \* entry: InitStart telemetry, generation++, SetExternalAgentsRegisterCount
 InitBegin(s, ctx) ==
     LET sc == GSetCount(s.ig.extReg, Cardinality(s.extFiles))
-        s1 == Emit([s EXCEPT !.gen = @ + 1, !.rtDone = "na"], TelEv("InitStart", ctx, "", "", 0))
+        s1 == Emit([s EXCEPT !.gen = @ + 1, !.rtDone = "na", !.lateEv = FALSE], TelEv("InitStart", ctx, "", "", 0))
     IN IF sc[2] = "ok"
        THEN [s1 EXCEPT !.ig.extReg = sc[1], !.toExec = DirOrder(s.extFiles),
                        !.pcI = [pc |-> "d2", ctx |-> ctx, err |-> ""]]
@@ -666,8 +667,12 @@ ExitSendDo(s, p) == [s EXCEPT !.procs[p].ev = "pending"]
 
 \* w0: the watcher receives the termination event (observable: ExitDelivered)
 WatchRecvEn(s, p) == s.pcW.pc = "idle" /\ p \in DOMAIN s.procs /\ s.procs[p].ev = "pending"
+\* (a notification that comes when the reset is over - it had waited its 2 s for it in vain - is handled like any
+\*  other: it records a fault and cancels the flows of an environment that has nothing running; the next
+\*  initialisation then fails at once.  lateEv marks that state: it is not one the reset left behind)
 WatchRecvDo(s, p) ==
-    LET s1 == [s EXCEPT !.procs[p].ev = "delivered"]
+    LET s1 == [s EXCEPT !.procs[p].ev = "delivered",
+                        !.lateEv = @ \/ (s.gen > 0 /\ s.rs = <<>> /\ s.pcS.pc = "off" /\ s.pcI.pc = "off" /\ s.pcV.pc = "off" /\ ~s.initDone)]
         isRt == p = RtProc(s.gen)
     IN IF s.shutOn
        THEN [s1 EXCEPT !.pcW = [pc |-> "w2", p |-> p, err |-> "nil"]]
@@ -1093,7 +1098,7 @@ PropHolds(s) ==
           (s.pcT.pc = "done" /\ s.pcT.err = "") => s.rt # "RestoreReady",
       \* C08: once a reset is over and nothing of the old generation is still running, nothing of it is left
       ResetIsFresh |->
-          IdleAfterReset(s) =>
+          (IdleAfterReset(s) /\ ~s.lateEv) =>
               /\ s.ig = InitGates /\ s.vg = InvGates /\ ~s.cancelOnce /\ s.regOpen
               /\ s.rt = "none" /\ s.firstFatal = "none" /\ s.renderer = "none"
               /\ s.srv.cached = NoCached      \* (a completion message left by an old invocation is harmless: it is
@@ -1108,7 +1113,7 @@ PropAntecedent(s) ==
       NoGhostInvoke |-> s.pcV.pc # "off",
       StreamOwnerIsReserver |-> s.srv.stream,
       OkHasBody |-> \E k \in DOMAIN s.iv : s.iv[k].m = "ret" /\ s.iv[k].out = "",
-      ResetIsFresh |-> IdleAfterReset(s) ]
+      ResetIsFresh |-> IdleAfterReset(s) /\ ~s.lateEv ]
 
 PropViolations(s) == {n \in DOMAIN PropHolds(s) : ~PropHolds(s)[n]}
 
